@@ -854,12 +854,17 @@ Proof.
     now apply mem_spec.
 Qed.
 
+Lemma nodupb_spec l : nodupb l = true -> NoDup l.
+Proof.
+  induction l as [|x l IH]; cbn [nodupb]; intros H; [constructor|].
+  apply Bool.andb_true_iff in H. destruct H as [H1 H2].
+  constructor; [|auto]. apply Bool.negb_true_iff in H1. now apply mem_false.
+Qed.
+
 Theorem replay_implies_steps_ok anc auto names steps : forall w,
-  Forall push_names_ok steps ->
   replay anc auto names steps w = true -> steps_ok names steps = true.
 Proof.
-  induction steps as [|s r IH]; intros w Hall Hr; [reflexivity|].
-  inversion Hall as [|? ? Hs Hr']; subst.
+  induction steps as [|s r IH]; intros w Hr; [reflexivity|].
   destruct s as [m c|m t|m b|pre post|ns pre post pushed rejected unexported];
     cbn [replay steps_ok] in *.
   - eapply IH; eassumption.
@@ -867,10 +872,10 @@ Proof.
   - eapply IH; eassumption.
   - destruct (fetch anc auto (w_view w) (w_remote w)) as [v' b'].
     rewrite !Bool.andb_true_iff in Hr. destruct Hr as [_ Hrest]. eapply IH; eassumption.
-  - cbn [push_names_ok] in Hs.
-    set (q := push git_srv (w_view w) (w_remote w) (w_backing w) ns) in *.
+  - set (q := push git_srv (w_view w) (w_remote w) (w_backing w) ns) in *.
     rewrite !Bool.andb_true_iff in Hr.
-    destruct Hr as [[[[[[[_ _] Hpre] Hpost] Hp] Hj] Hu] Hrest].
+    destruct Hr as [[[[[[[[Hs _] _] Hpre] Hpost] Hp] Hj] Hu] Hrest].
+    apply nodupb_spec in Hs.
     apply list_eqb_N_spec in Hp, Hj. apply N.eqb_eq in Hu.
     rewrite !Bool.andb_true_iff. split; [split; [split; [split|]|]|].
     + apply forallb_forall. intros n Hn. apply push_name_ok_spec.
@@ -891,12 +896,11 @@ Proof.
 Qed.
 
 Theorem corr_implies_okb c :
-  Forall push_names_ok (c_steps c) ->
   c_flags_ok c = true ->
   replay (ancb (c_graph c)) (c_auto_track c) (c_names c) (c_steps c) empty_world = true ->
   okb c = true.
 Proof.
-  intros Hn Hf Hr. unfold okb. rewrite Hf. cbn [andb].
+  intros Hf Hr. unfold okb. rewrite Hf. cbn [andb].
   eapply replay_implies_steps_ok; eassumption.
 Qed.
 
